@@ -1,0 +1,44 @@
+//! 验证钩子：可由验证脚本给定种子的散列状态
+//! * 仅在特性`verif_hooks`启用时编译；不改变任何既有行为
+//! * 只替换「无序词项容器」散列种子的**来源**：无脚本时种子恒为0（逐位可复现）
+
+use std::cell::RefCell;
+use std::hash::BuildHasher;
+
+thread_local! {
+    /// （脚本，下一个要取用的位置，已创建的容器数）
+    static SCRIPT: RefCell<(Vec<u64>, usize, usize)> = const { RefCell::new((Vec::new(), 0, 0)) };
+}
+
+/// 每创建一个容器，从线程局部脚本中取下一个种子；脚本用尽或未安装时取0
+#[derive(Debug, Clone)]
+pub struct SeededState(u64);
+
+impl Default for SeededState {
+    fn default() -> Self {
+        SCRIPT.with(|s| {
+            let mut s = s.borrow_mut();
+            let key = s.0.get(s.1).copied().unwrap_or(0);
+            s.1 += 1;
+            s.2 += 1;
+            SeededState(key)
+        })
+    }
+}
+
+impl BuildHasher for SeededState {
+    #[allow(deprecated)]
+    type Hasher = std::hash::SipHasher;
+    #[allow(deprecated)]
+    fn build_hasher(&self) -> Self::Hasher {
+        std::hash::SipHasher::new_with_keys(self.0, 0x6e61_7273_6573_6521)
+    }
+}
+
+/// 在给定种子脚本下运行`f`；返回`f`的结果与期间创建的容器数
+pub fn with_seed_script<T>(script: &[u64], f: impl FnOnce() -> T) -> (T, usize) {
+    let old = SCRIPT.with(|s| std::mem::replace(&mut *s.borrow_mut(), (script.to_vec(), 0, 0)));
+    let result = f();
+    let made = SCRIPT.with(|s| std::mem::replace(&mut *s.borrow_mut(), old).2);
+    (result, made)
+}
